@@ -720,6 +720,9 @@ func (p *Path) eqValue(a, b Value) *Term {
 		panic(p.unsupported("slice comparison"))
 	case *Opaque:
 		y, ok := b.(*Opaque)
+		if ok && x.Kind == "chan" && y.Kind == "chan" && x.Data == nil && y.Data == nil {
+			return tt.True() // both nil channels
+		}
 		return tt.Bool(ok && x == y)
 	}
 	panic(p.unsupported("eqValue on %T", a))
